@@ -991,6 +991,21 @@ WriteTrackEvents.loops = {_SSC2: _SSCL2()}
 
 
 @contract
+class SaveLeavesTrackUnchanged(WriteTrackEvents):
+    """C16: save is an observer - writing a track (incl. the end_of_track folding done on the way) must not change the
+    track's messages, otherwise everything observed after a save differs from a freshly built file.  The writer contract
+    is re-run on the configurations in which a delta has to be carried over an end_of_track inside the track."""
+    key = 'C16.save-leaves-the-track-unchanged'
+    properties = ('C16',)
+    configs = tuple([{'n': 3, 'a': a, 'b': 'meta:end_of_track', 'c': a} for a in ('note_on', 'program_change')]
+                    + [{'n': 2, 'a': 'note_on', 'b': b} for b in ('meta:end_of_track', 'note_on', 'sysex2')]
+                    + [{'n': 1, 'a': 'meta:end_of_track'}])
+
+
+SaveLeavesTrackUnchanged.loops = {_SSC2: _SSCL2()}
+
+
+@contract
 class WriteTrackRefuses(Contract):
     """what cannot be stored makes write_track raise ValueError before anything is written: a real-time message (the six
     MIDI 1.0 real-time types), a negative delta time, a non-integer delta time"""
